@@ -7,6 +7,7 @@ well-behaved callbacks must give the fault-free outcome.  Caching on and off.  T
 attribute stores on graph objects that are not undone on every exit."""
 from __future__ import annotations
 import ast
+import itertools
 
 from sa.harness import H, show
 from sa.ae import Seq, DictV, SetV, Obj, Callback, Raised, Unknown, Builtin, ExtV, SAtom, mkstr, GenV, IterV, ProxyV, ClassV
@@ -319,6 +320,27 @@ def run(ctx):
                 res.ob(False)
                 res.undecide(f"{name} caching={caching}: {u}")
     res.rule("FAULT-SWEEP", n)
+    # ---- "repeating the call with a well-behaved callback gives the normal answer", when the earlier callback object is gone: a
+    # throw-away filter is used once and dropped, the next one is allocated where it lived (closures; callable objects of a class that
+    # defines __eq__ without __hash__)
+    from rules import c05
+    nl = 0
+    for mk_, d_ in itertools.product(("make_reject", "RejectUnhashable"), ("ANY", "FORWARD")):
+        try:
+            h5 = H(ctx.src, ["edgegraph.traversal.helpers"])
+            outs = [c05.lifetime_scenario(h5, caching, d_, "NEIGHBOR", mk_)[0] for caching in (False, True)]
+        except Unknown as u:
+            res.ob(False)
+            res.undecide(f"FILTER-LIFETIME {mk_},{d_}: {u}")
+            continue
+        nl += 1
+        ok = outs[0] == outs[1]
+        res.ob(ok, sig=("filter-lifetime", mk_, d_))
+        if not ok:
+            res.violation("FILTER-LIFETIME", "edgegraph.traversal.helpers.neighbors", "caching-on,second-filter-allocated-where-the-first-one-lived" + (",filters-are-unhashable-objects" if mk_ != "make_reject" else ""),
+                          f"caching on: neighbors(a, {d_}, NEIGHBOR, f1) with a throw-away filter; f1 is dropped and a new, well-behaved filter f2 lives at its address; neighbors(a, {d_}, NEIGHBOR, f2) gives {outs[1]}, "
+                          f"the normal answer (caching off) is {outs[0]}")
+    res.rule("FILTER-LIFETIME", nl)
     from rules import structural
     for q in ("edgegraph.output.pyvis.make_pyvis_net", "edgegraph.output.plantuml.render_to_plantuml_src", "edgegraph.output.plaintext.basic_render", "edgegraph.traversal.helpers.neighbors",
               "edgegraph.traversal.helpers.find_links", "edgegraph.traversal.breadthfirst.ibft", "edgegraph.traversal.depthfirst._dft_recur", "edgegraph.traversal.depthfirst.idft_iterative"):
